@@ -49,7 +49,7 @@ Inductive val :=
 | VA (l : list val)           (* numpy array *)
 | VO (cls : string) (fields : list (string * val)).   (* an object: its class name and the attributes set so far *)
 
-Inductive binop := Add | Sub | Mul | Div | FloorDiv | Mod.
+Inductive binop := Add | Sub | Mul | Div | FloorDiv | Mod | Pow.   (* Pow: x ** n, n a non-negative int *)
 Inductive cmpop := CLt | CLe | CGt | CGe | CEq | CNe.
 
 (** comprehensions: [e for x in it] (a list), all(e for x in it), any(e for x in it);
@@ -150,6 +150,9 @@ Definition arith (op : binop) (a b : val) : option val :=
   | Mod, _, _ => match toQ a, toQ b with
                  | Some x, Some y => if Qeqb y 0 then None else Some (VQ (qmod x y))
                  | _, _ => None end
+  | Pow, VZ x, VZ n => if (n <? 0)%Z then None else Some (VZ (x ^ n))      (* int ** negative int is a float: outside *)
+  | Pow, VQ x, VZ n => if (n <? 0)%Z then None else Some (VQ (Qpower x n))
+  | Pow, _, _ => None
   end.
 
 Section MapOpt.
@@ -603,6 +606,27 @@ Definition call (f : string) (args : list val) : option (option val) :=   (* Non
                         | None => Some None end                          (* IndexError *)
         | None => None
         end
+    | _ => None
+    end
+  else if is "min" then               (* min(a, b) of two numbers: b if b < a else a *)
+    match args with
+    | [a; b] => match cmp_scalar CLt b a with
+                | Some c => if is_scalar a && is_scalar b then Some (Some (if c then b else a)) else None
+                | None => None end
+    | _ => None
+    end
+  else if is "max" then               (* max(a, b) of two numbers: b if b > a else a *)
+    match args with
+    | [a; b] => match cmp_scalar CGt b a with
+                | Some c => if is_scalar a && is_scalar b then Some (Some (if c then b else a)) else None
+                | None => None end
+    | _ => None
+    end
+  else if is "zip" then               (* zip(a, b): pairs up to the shorter one (rendered as a list) *)
+    match args with
+    | [a; b] => match seq_of a, seq_of b with
+                | Some l, Some r => Some (Some (VL (map (fun p => VT [fst p; snd p]) (combine l r))))
+                | _, _ => None end
     | _ => None
     end
   else if is "np.argmin" then         (* the first position of the minimum *)
